@@ -1236,6 +1236,17 @@ func EvalProgram(progSrc string, files []InputFile, rootSelectors []string, stdo
 	if err != nil {
 		return nil, err
 	}
+	// a root selector that does not parse is a syntax error of the run like one in
+	// the program: it is reported before anything is executed, also when no
+	// input value ever arrives for it to be applied to
+	for _, selector := range rootSelectors {
+		selectorLex := NewLexer(selector)
+		selectorParser := NewParser(&selectorLex)
+		if _, err := selectorParser.ParseExpression(); err != nil {
+			return nil, err
+		}
+	}
+
 	ev := NewEvaluator(prog, &lex, stdout)
 	ev.fuzzing = fuzzing
 
